@@ -1597,7 +1597,9 @@ impl StorageEngine {
                 _ => return Err(StorageError::WrongType.into()),
             }
         } else {
-            return Ok(Vec::new());
+            // A missing first key is an empty set; the other keys are still looked at, so that one
+            // of the wrong type is refused
+            HashSet::new()
         };
         drop(shard_guard); // Release lock early
         
